@@ -414,7 +414,8 @@ impl Authorizer {
 
         for (i, check) in self.authorizer_block_builder.checks.iter().enumerate() {
             let c = check.convert(&mut self.symbols);
-            let mut successful = false;
+            // `reject if` passes only when none of its alternatives matches
+            let mut successful = check.kind == CheckKind::Reject;
 
             for query in check.queries.iter() {
                 let query = query.convert(&mut self.symbols);
@@ -448,7 +449,12 @@ impl Authorizer {
                     return Err(error::Token::RunLimit(error::RunLimit::Timeout));
                 }
 
-                if res {
+                if check.kind == CheckKind::Reject {
+                    if !res {
+                        successful = false;
+                        break;
+                    }
+                } else if res {
                     successful = true;
                     break;
                 }
@@ -466,7 +472,8 @@ impl Authorizer {
 
         if let Some(blocks) = self.blocks.as_ref() {
             for (j, check) in blocks[0].checks.iter().enumerate() {
-                let mut successful = false;
+                // `reject if` passes only when none of its alternatives matches
+                let mut successful = check.kind == CheckKind::Reject;
 
                 let authority_trusted_origins = TrustedOrigins::from_scopes(
                     &blocks[0].scopes,
@@ -507,7 +514,12 @@ impl Authorizer {
                         return Err(error::Token::RunLimit(error::RunLimit::Timeout));
                     }
 
-                    if res {
+                    if check.kind == CheckKind::Reject {
+                        if !res {
+                            successful = false;
+                            break;
+                        }
+                    } else if res {
                         successful = true;
                         break;
                     }
@@ -565,7 +577,8 @@ impl Authorizer {
                 );
 
                 for (j, check) in block.checks.iter().enumerate() {
-                    let mut successful = false;
+                    // `reject if` passes only when none of its alternatives matches
+                    let mut successful = check.kind == CheckKind::Reject;
 
                     for query in check.queries.iter() {
                         let rule_trusted_origins = TrustedOrigins::from_scopes(
@@ -600,7 +613,12 @@ impl Authorizer {
                             return Err(error::Token::RunLimit(error::RunLimit::Timeout));
                         }
 
-                        if res {
+                        if check.kind == CheckKind::Reject {
+                            if !res {
+                                successful = false;
+                                break;
+                            }
+                        } else if res {
                             successful = true;
                             break;
                         }
